@@ -323,13 +323,8 @@ def parseRest (scheme rest : Str) (forceQuery : Bool) (rawQuery : Str) : Option 
 def schemeRTSP : Str := ofString Facts.Url.schemeRTSP     -- "rtsp"
 def schemeRTSPS : Str := ofString Facts.Url.schemeRTSPS   -- "rtsps"
 
-/-- net/url `Parse` followed by the three checks of base.ParseURL (scheme, opaque, fragment). -/
-def parseStd (s : Str) : Option Url :=
-  let (u, fragOK) := match splitFirst 35 s with
-    | some (a, f) => (a, f.isEmpty)
-    | none => (s, true)
-  if !fragOK then none else
-  if u.any isCTL then none else
+/-- net/url `parse` (the text before any `#`), with the scheme and opaque checks of base.ParseURL -/
+def parseNoFrag (u : Str) : Option Url :=
   match getScheme u with
   | none => none
   | some (sch, rest) =>
@@ -340,6 +335,15 @@ def parseStd (s : Str) : Option Url :=
     else match splitFirst 63 rest with
       | some (r, q) => parseRest scheme r false q
       | none => parseRest scheme rest false []
+
+/-- net/url `Parse` followed by the three checks of base.ParseURL (scheme, opaque, fragment). -/
+def parseStd (s : Str) : Option Url :=
+  let (u, fragOK) := match splitFirst 35 s with
+    | some (a, f) => (a, f.isEmpty)
+    | none => (s, true)
+  if !fragOK then none else
+  if u.any isCTL then none else
+  parseNoFrag u
 
 /-! ### base.ParseURL: the IPv6-zone workaround -/
 
